@@ -643,6 +643,9 @@ class _Option:
         try:
             sum = datetime.timedelta()
             start = 0
+            if not value:
+                # an empty string does not denote a duration
+                raise Exception()
             while start < len(value):
                 m = self._TIMEDELTA_PATTERN.match(value, start)
                 if not m:
